@@ -63,6 +63,8 @@ PROPS = {
          "rule": "source repo (DAG <=14, shared blocks) x pre-populated destination x tips x table depth x max packfile size x packfile read partition, real sender->packfile->receiver; adversarial object orders; non-trivial = (>=2 packfiles or pre-populated destination) and >=2 commits sent; distinct by plan hash"},
     ]},
     "C05": {"level": "exploration", "profiles": [
+        {"id": "C05col", "cpu": 4, "quick_n": 1500, "thorough_n": 2000000000, "quick_s": 60, "thorough_s": 300, "seed_off": 600000, "timeout": 120,
+         "rule": "two branches over a keyed base: both add the same new rows and one also adds a column (the new rows keep its value whichever branch is listed first); both add a column of the same name with per-row cells from {empty, v, w} (equal cells resolve, different cells are a reported conflict on that column); every case non-trivial"},
         {"id": "C05cli", "cpu": 4, "quick_n": 600, "thorough_n": 2000000000, "quick_s": 60, "thorough_s": 400, "seed_off": 300000, "timeout": 120,
          "rule": "`wrgl merge main alt` through the in-process CLI: main ahead of / behind / equal to / diverged from alt x fast-forward mode x 1-3 commits on the moving side; main's table (raw and structurally checked) must be X when the other side is the base and the union of disjoint edits when diverged, main must descend from both; a refused merge leaves main alone; every case non-trivial"},
         {"id": "C05", "cpu": 4, "quick_n": 2400, "thorough_n": 2000000000, "quick_s": 60, "thorough_s": 900, "timeout": 120,
@@ -81,6 +83,8 @@ PROPS = {
          "rule": "transaction staging 1..4 branches (new/existing) via CLI; `transaction commit|discard` with a crash after every write prefix and a failure at every store write, re-run; sequences commit;commit, commit;discard; non-trivial = >=2 staged branches; distinct by plan hash"},
     ]},
     "C09": {"level": "exploration", "profiles": [
+        {"id": "C09two", "cpu": 2, "quick_n": 300, "thorough_n": 2000000000, "quick_s": 60, "thorough_s": 300, "timeout": 300, "seed_off": 900000,
+         "rule": "client L and two remotes R, R2 (two reference servers): L takes R's main by pull or fetch at depth 0/1/2, adds 0-2 commits, optionally `fetch tables --missing`, then origin is kept / removed / renamed and main is pushed to R2; a push that moves R2's main must leave every ancestor, table and block there, a refused push leaves R2 without refs, a full copy must be accepted; every case non-trivial"},
         {"id": "C09", "cpu": 2, "quick_n": 800, "thorough_n": 2000000000, "quick_s": 60, "thorough_s": 900, "timeout": 300,
          "rule": "multi-node run (clients L, L2, remote R over simnet + reference server), 6-17 ops, server knobs, client pack size, response chunking; fault-free; non-trivial = >=1 fetch and >=1 push that transferred objects; distinct by plan hash"},
         {"id": "C09f", "cpu": 2, "quick_n": 800, "thorough_n": 2000000000, "quick_s": 60, "thorough_s": 900, "timeout": 300, "seed_off": 700000,
